@@ -169,7 +169,7 @@ def unsaturated_exp(term, bounded_names=(), res=None):
             parents[id(c)] = n
     out = []
     for n in ast.walk(term):
-        if isinstance(n, ast.Call) and ast.unparse(n.func) == "exp" and len(n.args) == 1:
+        if isinstance(n, ast.Call) and ast.unparse(n.func).split(".")[-1] in ("exp", "expm1", "exp2", "sinh", "cosh") and len(n.args) == 1:
             arg = n.args[0]
             free = {x.id for x in ast.walk(arg) if isinstance(x, ast.Name)} - set(bounded_names)
             attrs = [x for x in ast.walk(arg) if isinstance(x, ast.Attribute)]
